@@ -294,7 +294,7 @@ func byKind(k int, name string) Def {
 var enumBases = []string{"byte", "uint8", "uint16", "int16", "uint32", "int32", "uint64", "int64"}
 
 // nSingles is the number of single-definition cases of Case.
-const nSingles = 43
+const nSingles = 45
 
 // NCases is the number of schema cases.
 const NCases = nSingles + nKinds*nKinds
@@ -344,7 +344,7 @@ func Case(i int) (defs []Def, docs bool) {
 	case 21:
 		return []Def{unionOp("U")}, false
 	case 22:
-		return []Def{constDef("a", "int32", "-5"), constDef("b", "uint64", "0xFfe"), constSym("c")}, false
+		return []Def{constDef("a", "int32", "-5"), constDef("b", "uint64", "0xFfe"), constSym("c"), constDef("d", "int16", "-0x7f")}, false
 	case 23:
 		// inf / -inf / nan are left out: the File stores them as Go expressions
 		// (an implementation convention the property does not fix)
@@ -377,6 +377,23 @@ func Case(i int) (defs []Def, docs bool) {
 		en := enumPlain("E")
 		en.Trail = " end of E"
 		return []Def{st, ms, en, structRO("T")}, true
+	case 43:
+		// a const followed by documented definitions (line and block doc comments)
+		symOn = false
+		c2 := constDef("b", "bool", "true")
+		c2.Doc = " doc of b " + printable(1)
+		st := structPlain("S")
+		st.Doc = " doc of S"
+		c3 := constDef("c", "string", "\"x\"")
+		en := enumPlain("E")
+		en.BlockDoc = " block doc of E "
+		return []Def{constDef("a", "int32", "1"), c2, st, c3, en}, true
+	case 44:
+		// negative hexadecimal members of signed enums
+		return []Def{
+			{Kind: "enum", Name: "E", Base: "int16", Opts: []Opt{{Name: "A", Lit: []byte("-0x10"), S: -16}, {Name: "B", Lit: []byte("0x7fff"), S: 0x7fff}}},
+			{Kind: "enum", Name: "F", Base: "int64", Opts: []Opt{{Name: "C", Lit: []byte("-0x8000000000000000"), S: -0x8000000000000000}, {Name: "D", Lit: []byte("-1"), S: -1}}},
+		}, false
 	case 40:
 		return []Def{unionDocs("U")}, true
 	case 41:
@@ -404,8 +421,13 @@ func styleFor(docs bool, gaps int) *Style {
 		// pair cases: multi-line and one-line layouts only
 		s.gaps = 0
 		// (the one-line layout has no place for docs and attributes)
-		if !docs && vstub.Choose(0, 1) == 1 {
-			s.OneLine = true
+		if !docs {
+			switch vstub.Choose(0, 2) {
+			case 1:
+				s.OneLine = true
+			case 2:
+				s.OneLine, s.Join = true, true
+			}
 		}
 		return s
 	}
